@@ -6,6 +6,7 @@ import (
 	"net"
 	"net/http"
 	"net/netip"
+	"net/url"
 	"os"
 	"strings"
 	"testing"
@@ -234,7 +235,8 @@ func TestC19_HostHeaderVariables(t *testing.T) {
 		name := rapid.StringOfN(rapid.SampledFrom([]rune(tchar)), 1, 12, -1).Draw(t, "hname")
 		vals := rapid.SliceOfN(rapid.StringMatching(`[ -~]{0,10}`), 0, 3).Draw(t, "hvals")
 		other := rapid.StringOfN(rapid.SampledFrom([]rune(tchar)), 1, 12, -1).Draw(t, "other")
-		req := &http.Request{Host: host, Header: http.Header{}, RemoteAddr: "1.2.3.4:5"}
+		// req.URL is what a balancer upstream may already have rewritten; it is not the Host
+		req := &http.Request{Host: host, Header: http.Header{}, RemoteAddr: "1.2.3.4:5", URL: &url.URL{Scheme: "http", Host: rapid.SampledFrom([]string{"backend:8080", "10.0.0.1", ""}).Draw(t, "urlHost"), Path: "/"}}
 		setName := randCase(t, name, "setcase")
 		for _, v := range vals {
 			req.Header.Add(setName, v)
